@@ -22,7 +22,8 @@ namespace Infretis.Repex
 
 inductive ChainReach (seed : Nat) : Sys → List Entry → Prop
   | fresh {y0 : Sys} : Init y0 → y0.s.seed = seed → y0.s.entropy = seed → y0.s.spawned = 0 →
-      y0.s.cstep = 0 → y0.s.locked = [] → y0.s.lockedOrd = [] → ChainReach seed y0 []
+      y0.s.cstep = 0 → y0.s.locked = [] → y0.s.lockedOrd = [] → y0.s.locked0Ord = [] →
+      ChainReach seed y0 []
   | run {y y' : Sys} {log : List Entry} {evs : List Ev} : ChainReach seed y log →
       run y evs = .ok y' → ChainReach seed y' (log ++ ghost y evs)
   | restart {y y' : Sys} {log : List Entry} {s' : St} {workers tsteps : Nat} {occ : List (List Int)}
@@ -106,7 +107,7 @@ theorem chain_restart_step {seed : Nat} {s s' : St} {jobs : List Job} {log : Lis
 theorem ChainReach.inv {seed : Nat} {y : Sys} {log : List Entry} (h : ChainReach seed y log) :
     ChainInv seed y log := by
   induction h with
-  | fresh hi h1 h2 h3 h4 h5 h6 =>
+  | fresh hi h1 h2 h3 h4 h5 h6 _ =>
     refine ⟨ninv_of_init hi h5 h6 (by rw [h3, h4]), h1, h2, by intro e he; simp at he, ?_,
       by intro e he; simp at he, ?_⟩
     · rw [h3]; rfl
@@ -205,5 +206,222 @@ theorem reissue_same_streams {s s' : St} {jobs : List Job} {y' : Sys} {workers t
     simp only at hs1
     rw [hs2.1, hs2.2, hs1.1, hs1.2, ho]
     exact ⟨rfl, rfl⟩
+
+/-! ### chains without any scope restriction
+
+Since /repo 17a0342 `write_toml` records the spawn counter whenever it is not `cstep + len(locked)`,
+so a restart ALWAYS continues the counter (`restore_continues`).  That makes the stream statements
+independent of the slot invariant: they hold for arbitrary event lists and arbitrary restarts —
+fewer or more workers, fewer remaining steps than recorded jobs (records dropped), a different
+number of ensembles, any interleaving the model allows.  What still needs the slot invariant (and
+therefore the scope of `ChainReach`) is the ALIGNMENT of records and ordinals: that a re-issued job is
+the recorded job and gets that job's ordinal (`reissue_same_streams`, `NInv`). -/
+
+theorem popLockedOrd_subset (pn : Nat) : ∀ (fuel idx : Nat) (L : List (List Int × List Nat))
+    (O : List Nat), ∀ x ∈ popLockedOrd pn fuel idx L O, x ∈ O := by
+  intro fuel
+  induction fuel with
+  | zero => intro idx L O x hx; exact hx
+  | succ fuel ih =>
+    intro idx L O x hx
+    unfold popLockedOrd at hx
+    split at hx
+    · exact hx
+    · split at hx
+      · exact List.mem_of_mem_eraseIdx (ih _ _ _ x hx)
+      · exact ih _ _ _ x hx
+
+theorem popAll_ord_subset : ∀ (ps : List Picked) (L : List (List Int × List Nat)) (O : List Nat),
+    ∀ x ∈ (popAll ps (L, O)).2, x ∈ O := by
+  intro ps
+  induction ps with
+  | nil => intro L O x hx; exact hx
+  | cons p ps ih =>
+    intro L O x hx
+    unfold popAll at hx
+    rw [List.foldl_cons] at hx
+    have := ih _ _ x hx
+    exact popLockedOrd_subset p.pn _ _ L O x this
+
+/-- every ordinal on record — with a job in flight or waiting to be re-issued — is below the counter -/
+def OrdsBelow (s : St) : Prop :=
+  (∀ o ∈ s.lockedOrd, o < s.spawned) ∧ (∀ o, some o ∈ s.locked0Ord → o < s.spawned)
+
+theorem Issue.ordsBelow {sb s' : St} {ps : List Picked} {ord : Nat} {fresh : Bool}
+    (hi : Issue sb s' ps ord fresh) (hb : OrdsBelow sb) : OrdsBelow s' := by
+  obtain ⟨b1, b2⟩ := hb
+  rcases hi.kind with ⟨_, ho, hsp, hl⟩ | ⟨_, hsp, hl⟩
+  · refine ⟨?_, ?_⟩
+    · intro o hmem
+      rw [hi.lockedOrd] at hmem
+      rw [hsp]
+      rcases List.mem_append.mp hmem with h | h
+      · have := b1 o h; omega
+      · simp only [List.mem_singleton] at h; omega
+    · intro o hmem
+      rw [hsp]
+      have : some o ∈ sb.locked0Ord := by
+        rcases hl with hl | hl
+        · rw [hl] at hmem; exact hmem
+        · rw [hl] at hmem; exact List.mem_of_mem_tail hmem
+      have := b2 o this
+      omega
+  · have hord : ord < sb.spawned := b2 ord (by rw [hl]; exact List.mem_cons_self ..)
+    refine ⟨?_, ?_⟩
+    · intro o hmem
+      rw [hi.lockedOrd] at hmem
+      rw [hsp]
+      rcases List.mem_append.mp hmem with h | h
+      · exact b1 o h
+      · simp only [List.mem_singleton] at h; omega
+    · intro o hmem
+      rw [hsp]
+      exact b2 o (by rw [hl]; exact List.mem_cons_of_mem _ hmem)
+
+theorem midState_ordsBelow {y : Sys} {k : Nat} {status : Status} {newW : List (List Rat)} {s2 : St}
+    (hb : OrdsBelow y.s) (h : midState y k status newW = .ok s2) : OrdsBelow s2 := by
+  obtain ⟨job, _, _, _, m3, _, _, m6, _, m8⟩ := midState_spec h
+  have hO : s2.lockedOrd = (popAll job.picked (y.s.locked, y.s.lockedOrd)).2 := by rw [← m8]
+  refine ⟨?_, ?_⟩
+  · intro o ho
+    rw [hO] at ho
+    rw [m3]
+    exact hb.1 o (popAll_ord_subset _ _ _ o ho)
+  · intro o ho
+    rw [m6] at ho
+    rw [m3]
+    exact hb.2 o ho
+
+theorem sysStepJ_ordsBelow {y y' : Sys} {ev : Ev} {oj : Option (Job × List Draw)}
+    (hb : OrdsBelow y.s) (h : sysStepJ y ev = .ok (y', oj)) : OrdsBelow y'.s := by
+  cases ev with
+  | start o saved =>
+    obtain ⟨s1, job, ds, _, ⟨q, _, qo⟩, hprep, _, _, _⟩ := sysStepJ_start h
+    obtain ⟨ord, fresh, hi⟩ := prep_issue hprep
+    exact hi.ordsBelow ⟨by rw [qo, q.spawned]; exact hb.1, by rw [q.locked0Ord, q.spawned]; exact hb.2⟩
+  | initDone =>
+    obtain ⟨_, ⟨q, _, qo⟩, _, _⟩ := sysStepJ_initDone h
+    exact ⟨by rw [qo, q.spawned]; exact hb.1, by rw [q.locked0Ord, q.spawned]; exact hb.2⟩
+  | step k status newW o =>
+    obtain ⟨job, s2, _, hmid, hrest⟩ := sysStepJ_step h
+    have h2 := midState_ordsBelow hb hmid
+    rcases hrest with ⟨job', ds, hprep, _, _⟩ | ⟨hs, _, _⟩
+    · obtain ⟨ord, fresh, hi⟩ := prep_issue hprep
+      exact hi.ordsBelow h2
+    · rw [hs]; exact h2
+
+theorem run_ordsBelow : ∀ (evs : List Ev) {y y' : Sys}, OrdsBelow y.s → run y evs = .ok y' →
+    OrdsBelow y'.s := by
+  intro evs
+  induction evs with
+  | nil =>
+    intro y y' hb h
+    simp only [run, Except.ok.injEq] at h
+    subst h
+    exact hb
+  | cons ev rest ih =>
+    intro y y' hb h
+    obtain ⟨y1, oj, hj, hr⟩ := run_cons h
+    exact ih (sysStepJ_ordsBelow hb hj) hr
+
+theorem restore_ordsBelow {s s' : St} {n workers tsteps : Nat} {occ : List (List Int)}
+    {ensEng : List (List Nat)} {weightOf : Nat → List Rat} (hb : OrdsBelow s)
+    (h : restore (persist s) n workers tsteps occ ensEng weightOf = .ok s') : OrdsBelow s' := by
+  obtain ⟨_, _, r3, _, r5, _, _, r8⟩ := restore_continues h
+  refine ⟨by rw [r5]; intro o ho; simp at ho, ?_⟩
+  intro o ho
+  rw [r8] at ho
+  rw [r3]
+  obtain ⟨o', ho', heq⟩ := List.mem_map.mp ho
+  simp only [Option.some.injEq] at heq
+  rw [← heq]
+  exact hb.1 o' ho'
+
+/-- chains with NO scope restriction: a fresh start, any histories that run, any restarts (between
+    events or from the file written inside `treat_output`), with any number of ensembles, workers,
+    steps, any engine table; what the restarted sampler re-issues (everything, a prefix, nothing) is
+    just part of the next history -/
+inductive ChainAny (seed : Nat) : Sys → List Entry → Prop
+  | fresh {y0 : Sys} : y0.s.seed = seed → y0.s.entropy = seed → y0.s.spawned = 0 →
+      y0.s.lockedOrd = [] → y0.s.locked0Ord = [] → ChainAny seed y0 []
+  | run {y y' : Sys} {log : List Entry} {evs : List Ev} : ChainAny seed y log →
+      Infretis.Repex.run y evs = .ok y' → ChainAny seed y' (log ++ ghost y evs)
+  | restart {y : Sys} {log : List Entry} {s' : St} {n workers tsteps : Nat} {occ : List (List Int)}
+      {ensEng : List (List Nat)} {weightOf : Nat → List Rat} : ChainAny seed y log →
+      restore (persist y.s) n workers tsteps occ ensEng weightOf = .ok s' →
+      ChainAny seed { s := s', jobs := [] } log
+  | restartMid {y : Sys} {log : List Entry} {k : Nat} {status : Status} {newW : List (List Rat)}
+      {s2 s' : St} {n workers tsteps : Nat} {occ : List (List Int)} {ensEng : List (List Nat)}
+      {weightOf : Nat → List Rat} : ChainAny seed y log →
+      midState y k status newW = .ok s2 →
+      restore (persist s2) n workers tsteps occ ensEng weightOf = .ok s' →
+      ChainAny seed { s := s', jobs := [] } log
+
+structure AnyInv (seed : Nat) (y : Sys) (log : List Entry) : Prop where
+  hseed : y.s.seed = seed
+  hentropy : y.s.entropy = seed
+  tagged : Tagged seed log
+  /-- the `k`-th fresh (= distinct) job of the chain has ordinal `k`; the counter counts them -/
+  fresh : freshOrds log = List.range y.s.spawned
+  /-- every entry, re-issues included, carries the ordinal of a distinct job issued so far -/
+  ordLt : ∀ e ∈ log, e.ord < y.s.spawned
+  below : OrdsBelow y.s
+
+theorem ChainAny.inv {seed : Nat} {y : Sys} {log : List Entry} (h : ChainAny seed y log) :
+    AnyInv seed y log := by
+  induction h with
+  | fresh h1 h2 h3 h4 h5 =>
+    refine ⟨h1, h2, by intro e he; simp at he, by rw [h3]; rfl, by intro e he; simp at he, ?_, ?_⟩
+    · rw [h4]; intro o ho; simp at ho
+    · rw [h5]; intro o ho; simp at ho
+  | @run y y' log evs _ hr ih =>
+    obtain ⟨r1, r2, r3, _⟩ := run_spawned evs hr
+    obtain ⟨s1, s2, s3⟩ := ghost_spec evs y
+    rw [ih.hentropy] at s1
+    have hfo : freshOrds (log ++ ghost y evs) = List.range y'.s.spawned := by
+      rw [freshOrds_append, ih.fresh, s2, r3, List.range_eq_range', List.range_eq_range']
+      have := @List.range'_append 0 y.s.spawned (freshOrds (ghost y evs)).length 1
+      simpa using this
+    refine ⟨r1.trans ih.hseed, r2.trans ih.hentropy, ih.tagged.append s1, hfo, ?_, run_ordsBelow evs ih.below hr⟩
+    intro e he
+    rcases List.mem_append.mp he with he | he
+    · have := ih.ordLt e he; omega
+    · cases hf : e.fresh with
+      | true =>
+        have hm : e.ord ∈ freshOrds (log ++ ghost y evs) := by
+          rw [freshOrds_append]
+          apply List.mem_append.mpr
+          right
+          unfold freshOrds
+          exact List.mem_map.mpr ⟨e, List.mem_filter.mpr ⟨he, hf⟩, rfl⟩
+        rw [hfo] at hm
+        exact List.mem_range.mp hm
+      | false =>
+        have hm : some e.ord ∈ (reissueOrds (ghost y evs)).map some := by
+          apply List.mem_map.mpr
+          refine ⟨e.ord, ?_, rfl⟩
+          unfold reissueOrds
+          exact List.mem_map.mpr ⟨e, List.mem_filter.mpr ⟨he, by simp [hf]⟩, rfl⟩
+        have := ih.below.2 e.ord (s3.subset hm)
+        omega
+  | restart _ hre ih =>
+    obtain ⟨r1, r2, r3, _⟩ := restore_continues hre
+    exact ⟨r1.trans ih.hseed, r2.trans ih.hseed, ih.tagged, by rw [r3]; exact ih.fresh,
+      by rw [r3]; exact ih.ordLt, restore_ordsBelow ih.below hre⟩
+  | restartMid _ hmid hre ih =>
+    obtain ⟨_, _, m1, _, m3, _⟩ := midState_spec hmid
+    obtain ⟨r1, r2, r3, _⟩ := restore_continues hre
+    have hb2 := midState_ordsBelow ih.below hmid
+    exact ⟨(r1.trans m1).trans ih.hseed, (r2.trans m1).trans ih.hseed, ih.tagged,
+      by rw [r3, m3]; exact ih.fresh, by rw [r3, m3]; exact ih.ordLt, restore_ordsBelow hb2 hre⟩
+
+/-- a chain in the restricted sense (every restart re-issues all records) is a chain -/
+theorem ChainReach.toAny {seed : Nat} {y : Sys} {log : List Entry} (h : ChainReach seed y log) :
+    ChainAny seed y log := by
+  induction h with
+  | fresh _ h1 h2 h3 _ _ h6 h7 => exact ChainAny.fresh h1 h2 h3 h6 h7
+  | run _ hr ih => exact ChainAny.run ih hr
+  | restart _ hre _ _ hr ih => exact ChainAny.run (ChainAny.restart ih hre) hr
+  | restartMid _ hmid hre _ _ hr ih => exact ChainAny.run (ChainAny.restartMid ih hmid hre) hr
 
 end Infretis.Repex
